@@ -165,6 +165,20 @@ struct Shared {
 
 static SHARED: std::sync::Mutex<Option<Shared>> = std::sync::Mutex::new(None);
 
+/// (address, size) of this module's thread-local cells on the calling thread.
+pub fn tls_cells() -> Vec<(usize, usize)> {
+    fn r<T>(x: &T) -> (usize, usize) {
+        (x as *const T as usize, std::mem::size_of::<T>())
+    }
+    vec![LAST_PANIC.with(r), AMBIENT_READS.with(r)]
+}
+
+/// Address range of the harness's shared-pool static (excluded from the static-data comparison).
+pub fn shared_static_range() -> (usize, usize) {
+    let a = &SHARED as *const _ as usize;
+    (a, a + std::mem::size_of_val(&SHARED))
+}
+
 fn shared() -> std::sync::MutexGuard<'static, Option<Shared>> {
     SHARED.lock().unwrap_or_else(|e| e.into_inner())
 }
@@ -179,6 +193,8 @@ pub struct Ctx<'a> {
 // ------------------------------------------------------------------ measured calls
 
 pub struct Meas {
+    /// first change of the executable's writable static data during the call: (offset, old, new)
+    pub static_write: Option<(usize, u8, u8)>,
     before: isize,
     pub peak: isize,
     pub allocs: u64,
@@ -195,16 +211,29 @@ impl Meas {
 
 /// Run a library call inside a measurement window; panics are caught.
 pub fn measured<T>(forbid: bool, f: impl FnOnce() -> T) -> (Result<T, String>, Meas) {
+    measured_x(forbid, false, f)
+}
+
+/// Same; `statics` = the call crosses no harness seam, so the executable's writable static data
+/// must be bit-identical afterwards.
+pub fn measured_x<T>(forbid: bool, statics: bool, f: impl FnOnce() -> T) -> (Result<T, String>, Meas) {
+    if statics {
+        crate::statics::prepare();
+    }
     let c0 = alloc::count();
     let f0 = alloc::forbid_hits();
     let before = alloc::window_start();
     if forbid {
         alloc::set_forbid(true);
     }
+    if statics {
+        crate::statics::snapshot();
+    }
     let r = catch_unwind(AssertUnwindSafe(f));
+    let static_write = if statics && r.is_ok() { crate::statics::changed().or_else(|| crate::statics::tls_changed().map(|(o, a, b)| (usize::MAX - o, a, b))) } else { None };
     alloc::set_forbid(false);
     let peak = alloc::peak();
-    let m = Meas { before, peak, allocs: alloc::count() - c0, forbid_hits: alloc::forbid_hits() - f0, max_req: alloc::max_request() };
+    let m = Meas { static_write, before, peak, allocs: alloc::count() - c0, forbid_hits: alloc::forbid_hits() - f0, max_req: alloc::max_request() };
     let r = match r {
         Ok(t) => Ok(t),
         Err(_) => Err(harness(|| LAST_PANIC.with(|p| p.borrow().clone()))),
@@ -342,7 +371,11 @@ pub fn eval_query(op: &Op, zh: Option<&ZH>, toh: Option<&ZH>, buf: Option<&mut V
     }
     macro_rules! run {
         ($forbid:expr, $e:expr) => {{
-            let (r, m) = measured($forbid, || $e);
+            // (the harness's own statics that the clock seam touches are excluded from the comparison)
+            let (r, m) = measured_x($forbid, true, || $e);
+            if let Some((off, old, new)) = m.static_write {
+                harness(|| q.findings.push(("C15.static_write".into(), "static-data-written".into(), format!("{}: the call changed process-global state ({}: {old:#04x} -> {new:#04x}); no operation may write statics or thread-locals", op.text(), crate::statics::describe(off)))));
+            }
             q.noalloc_surface = $forbid;
             q.meas = Some(m);
             match r {
@@ -360,6 +393,22 @@ pub fn eval_query(op: &Op, zh: Option<&ZH>, toh: Option<&ZH>, buf: Option<&mut V
             let z = need!(zh);
             let r = run!(true, z.find_local_time_type(*t).map(|l| *l));
             harness(|| r_ltt(out, &r));
+            // the owned zone has its own entry point: it must say the same
+            if let Some(owned) = zh.and_then(|h| h.tz()) {
+                let ro = run!(true, owned.find_local_time_type(*t).map(|l| *l));
+                harness(|| {
+                    out.push_str(" owned=");
+                    r_ltt(out, &ro);
+                });
+                let same = match (&r, &ro) {
+                    (Ok(a), Ok(b)) => a == b,
+                    (Err(a), Err(b)) => format!("{a:?}") == format!("{b:?}"),
+                    _ => false,
+                };
+                if !same {
+                    q.findings.push(("C15.alone_vs_concurrent".into(), "owned-and-borrowed-lookup-differ".into(), format!("lookup t={t}: TimeZone::find_local_time_type and TimeZoneRef::find_local_time_type on the same zone disagree: {out}")));
+                }
+            }
             if let Ok(l) = &r {
                 let mut ok = z.local_time_types().iter().any(|x| x == l);
                 if let Some(tz::timezone::TransitionRule::Fixed(f)) = z.extra_rule() {
@@ -808,7 +857,7 @@ pub fn run_op<'c>(ctx: &'c Ctx<'c>, me: usize, st: &mut ActorState<'c>, opi: usi
                 st.settings = Some(TimeZoneSettings::new(&ctx.dirs_all[..], sim_read));
             }
             let persistent = if full_list { st.settings.as_ref() } else { None };
-            let (r, m) = measured(false, || {
+            let (r, m) = measured_x(false, true, || {
                 let fresh;
                 let settings = match persistent {
                     Some(s) => s,
@@ -825,6 +874,9 @@ pub fn run_op<'c>(ctx: &'c Ctx<'c>, me: usize, st: &mut ActorState<'c>, opi: usi
             });
             if let Some(w) = lock().as_mut() {
                 w.in_resolve[me] = false;
+            }
+            if let Some((off, old, new)) = m.static_write {
+                harness(|| push_violation(armed, "C15.static_write", "static-data-written", format!("resolving {tzv:?} changed process-global state ({}: {old:#04x} -> {new:#04x}); no operation may write statics or thread-locals", crate::statics::describe(off))));
             }
             let reads: Vec<ReadRec> = harness(|| OP_READS.with(|r| std::mem::take(&mut *r.borrow_mut())));
             // canonical result
@@ -920,7 +972,10 @@ pub fn run_op<'c>(ctx: &'c Ctx<'c>, me: usize, st: &mut ActorState<'c>, opi: usi
                             w.stats.fault(f.kind());
                         }
                     }
-                    let (r, m) = measured(false, || TimeZone::from_tz_data(&bytes));
+                    let (r, m) = measured_x(false, true, || TimeZone::from_tz_data(&bytes));
+                    if let Some((off, old, new)) = m.static_write {
+                        push_violation(armed, "C15.static_write", "static-data-written", format!("decoding changed process-global state ({}: {old:#04x} -> {new:#04x})", crate::statics::describe(off)));
+                    }
                     let res = harness(|| match &r {
                         Ok(rr) => {
                             match rr {
@@ -1350,7 +1405,8 @@ pub fn execute(sc: &Scenario, corpus: &mut Corpus, armed: Armed, opts: &ExecOpts
             sched_h: 0xcbf2_9ce4_8422_2325,
             result_h: 0xcbf2_9ce4_8422_2325,
             threaded,
-            current: 0,
+            // nobody runs until every actor thread has been spawned (spawning touches runtime statics)
+            current: if threaded { usize::MAX - 1 } else { 0 },
             alive: vec![true; n],
             in_resolve: vec![false; n.max(1)],
             sched: sc.sched.clone(),
@@ -1358,6 +1414,7 @@ pub fn execute(sc: &Scenario, corpus: &mut Corpus, armed: Armed, opts: &ExecOpts
             stats: RunStats::default(),
             violations: Vec::new(),
             log_events: opts.log_events,
+            arrived: 0,
         });
     }
     *shared() = Some(Shared { pool: (0..NPOOL).map(|_| None).collect(), records: Vec::new() });
@@ -1390,6 +1447,18 @@ pub fn execute(sc: &Scenario, corpus: &mut Corpus, armed: Armed, opts: &ExecOpts
                     drop(st);
                     finish(ai);
                 }));
+            }
+            // all spawned and through their runtime start-up (which touches process-global runtime
+            // state): release the first actor
+            {
+                let mut g = lock();
+                while g.as_ref().map_or(false, |w| w.arrived < n) {
+                    g = CV.wait(g).unwrap_or_else(|e| e.into_inner());
+                }
+                if let Some(w) = g.as_mut() {
+                    w.current = 0;
+                }
+                CVS[0].notify_one();
             }
             for h in hs {
                 if h.join().is_err() {
